@@ -199,6 +199,11 @@ func (da *doubleArray) lookup(path string, params []Param, idx int) (*node, []Pa
 			indices = append(indices, (uint64(i)<<indexOffset)|(uint64(idx)&indexMask))
 		}
 		c := path[i]
+		if isReservedCharacter(c) {
+			// reserved characters label parameter and termination edges of the trie:
+			// they may only be matched as (part of) a parameter value.
+			goto BACKTRACKING
+		}
 		if idx = nextIndex(da.bc[idx].Base(), c); idx >= len(da.bc) || da.bc[idx].Check() != c {
 			goto BACKTRACKING
 		}
@@ -216,7 +221,7 @@ BACKTRACKING:
 				break
 			}
 
-			next := NextSeparator(path, i)
+			next := nextPathSeparator(path, i)
 			nextParams := params
 			nextParams = append(nextParams, Param{Value: path[i:next]})
 			if nd, nextNextParams, found := da.lookup(path[next:], nextParams, nextIdx); found {
@@ -232,6 +237,20 @@ BACKTRACKING:
 		}
 	}
 	return nil, nil, false
+}
+
+func isReservedCharacter(c byte) bool {
+	return c == ParamCharacter || c == WildcardCharacter || c == TerminationCharacter
+}
+
+// nextPathSeparator returns the index of the next separator in a looked-up path.
+//
+// Unlike NextSeparator, which scans route keys, the termination character has no special meaning there.
+func nextPathSeparator(path string, start int) int {
+	for start < len(path) && path[start] != SeparatorCharacter {
+		start++
+	}
+	return start
 }
 
 // build builds double-array from records.
